@@ -35,6 +35,9 @@ def shards(tier, seed):
     return out
 
 
+_BL = {"i": 0}
+
+
 def judge(ctx, curve, dom, d, k, digest, at, fmt, cls, key, via_hash=None):
     """Make the signature with the reference, recover with the library."""
     n = dom.n
@@ -58,12 +61,18 @@ def judge(ctx, curve, dom, d, k, digest, at, fmt, cls, key, via_hash=None):
     # is one of the two candidates the identity?  Q2 = r^-1 (s R' - e G) with R' = -R: = -(k s + e)/r G ; identity iff ks + e = 0
     ident = (k * s + e) % n == 0
     par = "parity_even" if R[1] % 2 == 0 else "parity_odd"
+    _BL["i"] += 1
+    sig_arg, dig_arg = sig, digest
+    if _BL["i"] % 3 == 0:
+        sig_arg = gen.pick_container(sig, _BL["i"] // 3, wide=(fmt == "string"))[1]
+        dig_arg = gen.pick_container(digest, _BL["i"] // 3 + 3)[1]
+        ctx.count("bytes_like_arguments")
     try:
         if via_hash is not None:
             data, hf = via_hash
-            keys = ecdsa.VerifyingKey.from_public_key_recovery(sig, data, curve, hashfunc=hf, sigdecode=dec, allow_truncate=at)
+            keys = ecdsa.VerifyingKey.from_public_key_recovery(sig_arg, gen.pick_container(data, _BL["i"], wide=False)[1], curve, hashfunc=hf, sigdecode=dec, allow_truncate=at)
         else:
-            keys = ecdsa.VerifyingKey.from_public_key_recovery_with_digest(sig, digest, curve, hashfunc=hashlib.sha256, sigdecode=dec, allow_truncate=at)
+            keys = ecdsa.VerifyingKey.from_public_key_recovery_with_digest(sig_arg, dig_arg, curve, hashfunc=hashlib.sha256, sigdecode=dec, allow_truncate=at)
         outcome = None
     except Exception as ex:
         keys, outcome = None, "raised %s: %s" % (type(ex).__name__, ex)
